@@ -24,6 +24,54 @@ theorem sni_and_alpn_read_back (pre mid post : List Ext) (name : Bytes) (ps : Li
     parseExts (encExts es).length (encExts es) {} = view es {} :=
   parseExts_enc _ h _ (Nat.le_refl _) {} (Or.inr ⟨hn, rfl⟩)
 
+/-- reference encoder of a ClientHello handshake message (RFC 8446 §4.1.2): type, uint24 length, legacy_version, random,
+legacy_session_id, cipher_suites, legacy_compression_methods, extensions -/
+def encHello (len3 : Bytes) (ver : Nat) (random sid : Bytes) (suites : List Nat) (comp : Bytes) (es : List Ext) : Bytes :=
+  (1 :: len3) ++ (be16b ver ++ (random ++ (encLP8 sid ++ (encLP16 (encU16s suites) ++ (encLP8 comp ++ encLP16 (encExts es))))))
+
+/-- **The whole hello**: for every well-formed ClientHello — any legacy version, random, session id, cipher-suite list,
+compression list and well-formed extension block — the parser reads the legacy version, the cipher suites and exactly
+what a TLS server reads from the extensions (then applies the legacy-version fallback) -/
+theorem hello_parse_encode (len3 : Bytes) (ver : Nat) (random sid : Bytes) (suites : List Nat) (comp : Bytes) (es : List Ext)
+    (hl3 : len3.length = 3) (hv : ver < 65536) (hr : random.length = 32) (hsid : sid.length < 256)
+    (hsu : ∀ v ∈ suites, v < 65536) (hsl : suites.length < 32768) (hc : comp.length < 256)
+    (hes : ∀ e ∈ es, e.wf) (hel : (encExts es).length < 65536) (hs : sniCount es ≤ 1) :
+    parseHello (encHello len3 ver random sid suites comp es) =
+      finish (view es { version := ver, suites := suites }) := by
+  unfold parseHello encHello
+  have h4 : (1 :: len3).length = 4 := by simp [hl3]
+  have r4 := readN_append (1 :: len3) (be16b ver ++ (random ++ (encLP8 sid ++ (encLP16 (encU16s suites) ++ (encLP8 comp ++ encLP16 (encExts es))))))
+  rw [h4] at r4
+  rw [r4]
+  simp only []
+  rw [readU16_be16 ver hv]
+  simp only []
+  have r32 := readN_append random (encLP8 sid ++ (encLP16 (encU16s suites) ++ (encLP8 comp ++ encLP16 (encExts es))))
+  rw [hr] at r32
+  rw [r32]
+  simp only []
+  rw [readLP8_enc sid _ hsid]
+  simp only []
+  rw [readLP16_enc (encU16s suites) _ (by rw [encU16s_length]; omega)]
+  simp only []
+  rw [u16List_enc suites hsu _ (Nat.le_refl _) []]
+  simp only [List.nil_append, Bool.not_true, Bool.false_eq_true, ↓reduceIte]
+  rw [readLP8_enc comp _ hc]
+  simp only []
+  have hne : (encLP16 (encExts es)).isEmpty = false := by simp [encLP16, be16b]
+  rw [hne]
+  simp only [Bool.false_eq_true, ↓reduceIte]
+  have rl := readLP16_enc (encExts es) [] hel
+  rw [List.append_nil] at rl
+  rw [rl]
+  simp only [List.isEmpty_nil, Bool.not_true, Bool.false_eq_true, ↓reduceIte]
+  congr 1
+  apply extensions_parse_encode es hes
+  by_cases h0 : sniCount es = 0
+  · exact Or.inl h0
+  · exact Or.inr ⟨by omega, rfl⟩
+
+
 /-- the legacy-version fallback: without a supported_versions extension the versions are those not above the hello's
 legacy version, newest first -/
 theorem versions_fallback (v : Nat) : (finish { version := v }).versions = [0x0304, 0x0303, 0x0302, 0x0301].filter (· ≤ v) := by
